@@ -5,3 +5,4 @@ import MimicProps.C05
 import MimicProps.C06
 import MimicProps.C17
 import MimicProps.C02
+import MimicProps.C03
